@@ -123,6 +123,36 @@ def _make_op(src):
         o = gen.as_op(w, kwargs=kw, output_folder=rng.random() < 0.2)
         o["sid"] = "gen:%d" % src[1]
         return o, False
+    if src[0] == "bait":
+        # constructs in which an implementation could iterate a set / dict of names or SQL fragments: repeated operands,
+        # many operands, many components, many independent statements (iteration order depends on PYTHONHASHSEED)
+        from .. import gen_dag
+
+        rng = random.Random(src[1])
+        names = ["DS_1", "DS_2", "DS_3"]
+        a, b, c = rng.sample(names, 3)
+        stmts = rng.sample([
+            "U_1 <- union(%s, %s, %s);" % (a, b, a), "U_2 <- union(%s, %s, %s, %s);" % (a, b, c, b), "U_3 <- union(%s[calc Me_1 := Me_1 + 1], %s, %s[calc Me_1 := Me_1 + 1]);" % (a, b, a),
+            "U_4 <- intersect(%s, %s, %s);" % (a, b, c), "U_5 <- setdiff(union(%s, %s), %s);" % (a, b, c), "U_6 <- symdiff(%s, union(%s, %s, %s));" % (a, b, c, b),
+            "J_1 <- inner_join(%s as p, %s as q, %s as r calc Me_1 := p#Me_1 + q#Me_1 * r#Me_1 keep Me_1);" % (a, b, c),
+            "J_2 <- full_join(%s as p, %s as q, %s as r rename p#Me_1 to M_p, q#Me_1 to M_q, r#Me_1 to M_r);" % (c, b, a),
+            "X_1 <- exists_in(%s, %s, all);" % (a, c), "N_1 <- nvl(%s, 0) + nvl(%s, 0) - nvl(%s, 0) + nvl(%s, 0);" % (a, b, a, c),
+            "I_1 <- if %s#Me_1 > 2 then union(%s, %s) else union(%s, %s);" % (a, b, a, a, b),
+            "A_1 <- %s[aggr Me_s := sum(Me_1), Me_a := avg(Me_1), Me_x := max(Me_1), Me_n := min(Me_1), Me_c := count() group by Id_2];" % a,
+        ], rng.choice([2, 3, 4]))
+        st = {"datasets": [{"name": n, "DataStructure": gen_dag.COMPS} for n in names]}
+        data = {n: {"kind": "df", "columns": gen_dag.COLS, "rows": gen_dag._rows(random.Random(src[1] + i), 7)} for i, n in enumerate(names)}
+        o = {"api": "run", "script": "\n".join(stmts) + "\n", "structures": st, "data": data, "kwargs": {}, "env": {}, "output_folder": False,
+             "meta": {"bait": True}, "sid": "bait:%d" % src[1]}
+        return o, False
+    if src[0] == "dag":
+        from .. import gen_dag
+
+        rng = random.Random(src[1])
+        w = gen_dag.generate(rng, rows=rng.choice([3, 5, 8]))
+        o = gen.as_op(w, kwargs={"return_only_persistent": rng.random() < 0.5})
+        o["sid"] = "dag:%d" % src[1]
+        return o, False
     if src[0] == "sample":
         # rows homogeneous except for a few odd ones (see c33.sampling_workload): anything the engine decides
         # from a bounded probe of a stored table depends on the table's physical order
@@ -280,7 +310,8 @@ def run(ctx):
     n_gen = 500 if quick else 20000
     cps = [e for e in corpus.discover() if 0 < e["bytes"] < (20000 if quick else 400000)]
     n_corpus = 120 if quick else len(cps)
-    items = [("gen", rng.randrange(1 << 30)) for _ in range(n_gen)]
+    items = [("gen", rng.randrange(1 << 30)) for _ in range(n_gen - n_gen // 3)]
+    items += [("dag", rng.randrange(1 << 30)) for _ in range(n_gen // 3)]
     items += [("corpus", e) for e in rng.sample(cps, min(n_corpus, len(cps)))]
     bigs = [("big", rng.randrange(1 << 30), rng.choice([5000, 20000, 150000] if quick else [20000, 100000, 150000, 300000])) for _ in range(6 if quick else 120)]
     rng.shuffle(items)
@@ -288,7 +319,9 @@ def run(ctx):
     size = 5
     tasks = [{"items": items[i:i + size]} for i in range(0, len(items), size)]
     # hash-seed differential (fresh interpreters): a few batches
-    hs_items = [it for it in items if it[0] == "gen"][: (12 if quick else 300)]
+    baits = [("bait", rng.randrange(1 << 30)) for _ in range(24 if quick else 400)]
+    hs_items = baits + [it for it in items if it[0] in ("gen", "dag")][: (24 if quick else 400)]
+    items = baits[: (8 if quick else 100)] + items
     hs_tasks = [{"items": hs_items[i:i + 6], "hashseed": rng.choice([1, 7, 12345, 4242])} for i in range(0, len(hs_items), 6)]
     hs_done = ctx.map("task_hashseed", hs_tasks, budget_s=ctx.budget_s * 0.25, min_tasks=1)
     done = ctx.map("task_batch", tasks, budget_s=ctx.budget_s * 0.6, min_tasks=16)
@@ -363,7 +396,7 @@ def replay(rec):
 
     shim.preparse([op["script"] + "\n", op["script"]])
     if rec["invariant"] == "result-depends-on-hash-seed":
-        src = ("gen", int(sc["sid"].split(":")[1]))
+        src = (sc["sid"].split(":")[0], int(sc["sid"].split(":")[1]))
         r = task_hashseed({"items": [src], "hashseed": variants[0]["hashseed"]})
         return [{"invariant": x["invariant"], "observed": x["observed"], "digest": ""} for x in r["recs"]]
     ref = proc.in_child(_sequence_child, op, [{"env": {}}], timeout=600)[0]["outcome"]
